@@ -706,7 +706,9 @@ func genUCase(r *Rng, arena string) *UCase {
 		c.Entries = append(c.Entries, genEntry(r, arena, i))
 	}
 	if r.Chance(8) {
-		c.Allow = []string{r.Pick([]string{"../dst-evil", arena + "/p/q/dstx", arena + "/etcx", "../outside.txt"})}
+		c.Allow = []string{r.Pick([]string{"../dst-evil", arena + "/p/q/dstx", arena + "/etcx", "../outside.txt",
+			// entries that are a string prefix, but not a component prefix, of a decoy (seed C04-d)
+			"../dst-ev", "../outside", arena + "/p/q/dst-ev", "../dst-evil/"})}
 	}
 	return c
 }
